@@ -106,7 +106,7 @@ func runC11(c *Config, r *Report) {
 }
 
 func c11R2(ic *IC, r *Report) {
-	fn := ssaMethod(ic.SP, "Interpreter", "resizeFrame")
+	fn := ic.ssaMeth("Interpreter", "resizeFrame")
 	if fn == nil {
 		r.Errorf("anchor not resolved: (*Interpreter).resizeFrame")
 		return
@@ -279,7 +279,7 @@ func c11R4(ic *IC, r *Report) {
 	g := buildSGraph(ic.SP)
 	pipe := map[*ssa.Function]bool{}
 	for _, n := range []string{"CompileAST", "importSrc", "Execute"} {
-		if f := ssaMethod(ic.SP, "Interpreter", n); f != nil {
+		if f := ic.ssaMeth("Interpreter", n); f != nil {
 			pipe[f] = true
 		} else {
 			r.Errorf("anchor not resolved: (*Interpreter).%s", n)
@@ -389,7 +389,7 @@ func freeVarOrigins(fv *ssa.FreeVar) []ssa.Value {
 // frame that defines it (taken when the closure value is created).
 func closureFrameCloned(ic *IC, r *Report, rule string) {
 	g := buildSGraph(ic.SP)
-	newFrame := ic.SP.Func("newFrame")
+	newFrame := ic.ssaFunc("newFrame")
 	n := 0
 	seen := map[*ssa.Function]bool{}
 	for _, cb := range g.MakeFuncRoots {
